@@ -54,3 +54,38 @@ def run(F, rep, rule="C14.index-unit"):
     rep.ob(rule, "string built-ins take and return byte offsets (%d byte-based position operations; %d function(s) counting characters)" % (nbyte, len(sites)),
            "ok", "", None, key=rule + "|summary")
     rep.floor(rule + " byte-based string position operations", nbyte, 15)
+
+
+REPEATING_STRIPS = ("trim_start_matches", "trim_end_matches", "trim_matches", "trim_left_matches", "trim_right_matches")
+
+
+def strip_once(F, rep, rule="C14.strip-once"):
+    """A marker in front of / behind the text of a number (`0x`, a sign, a suffix) is part of its syntax exactly once.  The std functions
+    str::trim_*_matches remove *every* repetition of their pattern, so `"0x0x25"` would read as 37 instead of being refused: in the code
+    that serves the string built-ins (everything reachable from BuiltInFunction::run inside crate bytecode) they must not be applied to a
+    program string.  (`trim()` & co. remove white space only and are not concerned.)"""
+    entry = "bytecode::function::BuiltInFunction::run"
+    if F.fn(entry) is None:
+        from core import AnchorMissing
+        raise AnchorMissing(entry)
+    reach = F.reach([entry])
+    fns = [f for f in F.crates["bytecode"].fns if re.sub(r"::\{closure#\d+\}", "", f.path) in reach or f.path in reach]
+    nstr = 0
+    hits = []
+    for g in fns:
+        for c in g.calls():
+            d = (c.t["func"].get("def") or "")
+            m = re.match(r"core::str::<impl str>::(\w+)$", d)
+            if not m:
+                continue
+            nstr += 1
+            if m.group(1) in REPEATING_STRIPS:
+                hits.append((g, m.group(1), c.span))
+    for g, meth, span in hits:
+        top = re.sub(r"::\{closure#\d+\}", "", g.path)
+        rep.ob(rule, "%s removes a marker with str::%s, which strips every repetition of it" % (mir.short(top), meth), "violated",
+               'a text with the marker repeated (e.g. "0x0x25") is accepted as a number instead of being refused', span, fn=g.path,
+               key="%s|%s|%s" % (rule, mir.short(top), meth))
+    rep.ob(rule, "markers around number text are removed at most once in the string built-ins (%d str method calls inspected in %d functions)" % (nstr, len(fns)),
+           "ok", "", None, key=rule + "|summary")
+    rep.floor(rule + " str method calls reachable from the built-ins", nstr, 20)
